@@ -6,7 +6,10 @@
    every statement (it holds for every date parser).  The tie to the code is the correspondence check of
    harness/c05.py (model evaluated by vm_compute against parse_generic_csv on generated files).
 
-   THE TREE UNDER TEST.  [tree_variant] (Model.v) says which behaviour the correspondence check
+   STATUS: both fixes are applied in /repo (111bcb5, 61b1f62); tree_variant = fixed, so
+   c05_accept_iff_wellformed and c05_rows_independent below are the statements about the tree.
+
+   THE TREE UNDER TEST (history).  [tree_variant] (Model.v) says which behaviour the correspondence check
    compares the implementation with.  It is [as_code] for the unchanged /repo, which does NOT satisfy two
    of the full statements: see the two [_refuted] theorems (their witnesses replayed on the code are the
    known findings C05/non-finite-amount-accepted and C05/regex-unmatched-group-crash).
@@ -30,8 +33,9 @@ Definition c05_rows_independent_statement (v : variant) : Prop :=
     spec_wfb sp = true ->
     parse strptime v sp inp = Rows (flat_map (accepted strptime v sp) (iter_rows v (has_header sp) inp)).
 
-(* unchanged code: refuted — one line whose optional regex group did not match loses the whole file *)
-Theorem c05_rows_independent_refuted : ~ c05_rows_independent_statement tree_variant.
+(* history: before fix 61b1f62 the code (variant as_code) refuted this — one line whose optional regex group
+   did not match lost the whole file *)
+Theorem c05_rows_independent_refuted_before_fix : ~ c05_rows_independent_statement as_code.
 Proof.
   intros H.
   specialize (H (fun _ _ => Some [])
@@ -45,7 +49,7 @@ Proof.
                 eq_refl).
   vm_compute in H. discriminate H.
 Qed.
-Print Assumptions c05_rows_independent_refuted.
+Print Assumptions c05_rows_independent_refuted_before_fix.
 
 (* unchanged code: holds for every comma / one-character / tab delimited file, and for regex-delimited
    files in which every group of every matching line took part *)
@@ -87,8 +91,8 @@ Definition c05_accept_iff_wellformed_statement (v : variant) : Prop :=
     spec_wfb sp = true -> all_some row ->
     ((exists t, row_to_txn strptime v sp row = Txn t) <-> wellformed strptime true sp row).
 
-(* unchanged code: refuted — the amount cell 'nan' gives a transaction *)
-Theorem c05_accept_iff_wellformed_refuted : ~ c05_accept_iff_wellformed_statement tree_variant.
+(* history: before fix 111bcb5 the code (variant as_code) refuted this — the amount cell 'nan' gave a transaction *)
+Theorem c05_accept_iff_wellformed_refuted_before_fix : ~ c05_accept_iff_wellformed_statement as_code.
 Proof.
   intros H.
   specialize (H (fun _ _ => Some (bytes "2024-01-02T00:00:00"))
@@ -101,7 +105,7 @@ Proof.
   destruct H as [_ [_ [_ [a [Ha [_ Hf]]]]]]; [eexists; vm_compute; reflexivity|].
   vm_compute in Ha. injection Ha as <-. specialize (Hf eq_refl). discriminate Hf.
 Qed.
-Print Assumptions c05_accept_iff_wellformed_refuted.
+Print Assumptions c05_accept_iff_wellformed_refuted_before_fix.
 
 (* any variant: accepted <-> enough columns, date parses, description present, amount a non-zero float
    that is finite if the variant rejects non-finite amounts.  For the unchanged code this is the
@@ -117,6 +121,15 @@ Print Assumptions c05_accept_iff_wellformed_partial.
 Theorem c05_accept_iff_wellformed_fixed : c05_accept_iff_wellformed_statement fixed.
 Proof. intros st sp row. apply (accept_iff st fixed). Qed.
 Print Assumptions c05_accept_iff_wellformed_fixed.
+
+(* the statements about the tree under test (tree_variant = fixed) *)
+Theorem c05_accept_iff_wellformed : c05_accept_iff_wellformed_statement tree_variant.
+Proof. exact c05_accept_iff_wellformed_fixed. Qed.
+Print Assumptions c05_accept_iff_wellformed.
+
+Theorem c05_rows_independent : c05_rows_independent_statement tree_variant.
+Proof. exact c05_rows_independent_fixed. Qed.
+Print Assumptions c05_rows_independent.
 
 (* a row with too few columns is skipped, whatever its cells are (even unmatched groups) *)
 Theorem c05_short_row_skipped :
